@@ -50,8 +50,11 @@ class Check:
         self.evaluations = 0
         self.distinct = set()
         self.notes = []
-        self.kf = [k for k in json.load(open(os.path.join(ROOT, 'known_findings.json')))['findings']
-                   if k['property'] == pid]
+        allkf = list(json.load(open(os.path.join(ROOT, 'known_findings.json')))['findings'])
+        for f in sorted(os.listdir(ROOT)):   # proposals of a property package under development
+            if f.startswith('kf_proposed_') and f.endswith('.json'):
+                allkf += json.load(open(os.path.join(ROOT, f)))
+        self.kf = [k for k in allkf if k['property'] == pid]
         self.deep = tier == 'thorough'
 
     # ------------------------------------------------------------ obligations
